@@ -241,6 +241,42 @@ def corr_crash(pid, tier, seed, feats, nq, nt, oracle_props=None):
             "extra_crash_points": crash_points}
 
 
+def corr_damage(pid, tier, seed):
+    """C12: damaged files.  File layer: model and implementation read the same damaged bytes
+    (exhaustive single-bit sweeps of small files; random flips, truncations, garbage in larger ones);
+    engine level: every bit of every byte of small databases flipped, real Open / Get / Fold judged."""
+    rundir = _rundir(pid)
+    scen = corpus_scenarios(pid)
+    hist = {}
+    q = tier == "quick"
+    for kind, n, extra in (("damagegen", 6 if q else 60, "-mode sweep"), ("damagegen", 40 if q else 1500, "-mode random"),
+                           ("flipgen", 16 if q else 300, "-maxflips %d" % (2500 if q else 40000))):
+        s, h = gen_scripts(kind, seed, n, rundir, extra=extra)
+        scen.extend(s)
+        for k, v in h.items():
+            hist[k] = hist.get(k, 0) + v
+    for i, sc in enumerate(scen):
+        sc[0] = "S %d" % i
+    r = run_scripts(pid, rundir, scen, dflags="-noevents")
+    idx = {str(i): sc for i, sc in enumerate(scen)}
+    flips = 0
+    for tp in r["traces"]:
+        if os.path.exists(tp):
+            for l in read_lines(tp):
+                m = re.search(r"flipsweep .*# flips=(\d+) bytes=(\d+) opened=(\d+) open_errors=(\d+) get_errors=(\d+) older_value_served=(\d+)", l)
+                if m:
+                    flips += int(m.group(1))
+                    for k, g in zip(("engine_flips", "engine_bytes", "engine_opened", "engine_open_errors", "engine_get_errors", "engine_older_value_served"), m.groups()):
+                        hist[k] = hist.get(k, 0) + int(g)
+    oracle = [o for o in r["oracle"] if o.split()[1] in ("C12",)]
+    sample = scen[len(scen) // 2] if scen else []
+    return {"evaluations": len(scen), "distinct_nontrivial": nontrivial_count(scen, lambda sc: any(("flip" in l or "trunc" in l or "load" in l) for l in sc)),
+            "rule": "file layer: harness/vh damagegen (sweep: every bit of every byte of small files; random: flips, block-start header flips, truncations, garbage and zero files on files with multi-block records), each damage followed by a scan and a read of every written position on the real reader and on the model, results compared; engine level: harness/vh flipgen + flipsweep (all bits of all bytes of the data and hint files of small databases; real Open, ListKeys, Get, Fold judged by the oracle); non-trivial = contains a damage operation; distinct by md5",
+            "samples": [sample[:14]], "hist": hist, "observations_compared": r["checked"],
+            "mismatches": r["mismatches"], "oracle": oracle, "errors": r["errors"], "scen_index": idx,
+            "extra_engine_flips": flips}
+
+
 NOEV = "-noevents -skip files,stat,pos"
 
 REGISTRY = {
@@ -284,6 +320,12 @@ REGISTRY = {
                         "CopyDir copies the bytes the files have at that moment (their physical size: C20_physical_size_invariant says it is the logical size under standard I/O; under MMap Backup cuts the files back first)",
                         "the directory lock is not part of the engine model (C16); the generated scenarios open every copy (while the source directory exists) under an independently chosen configuration and write to it",
                         "file-system calls do not fail"],
+    },
+    "C12": {
+        "corr": lambda tier, seed: corr_damage("C12", tier, seed),
+        "assumptions": ["theorems: no panic and termination of all readers on arbitrary bytes; every accepted chunk carries the checksum of its own bytes; every accepted record is exactly its bytes; a damaged checksum field is always detected; a damaged type/payload byte is detected for every checksum function that separates strings differing in one byte (true of CRC-32, assumed); a damaged length field re-delimits the chunk and is covered by the exhaustive sweeps only",
+                        "oracle at engine level: after any single-bit flip a Get may fail, or may return an OLDER value of the key (a damaged last record is indistinguishable from a torn tail and is dropped: counted in the evidence as older_value_served), but never bytes that were not written for that key, never a key that was not written, never a panic",
+                        "the engine-level sweep has no model counterpart (the engine model is record level); the byte-level reader model is compared with the real reader on every damaged file of the file-layer part"],
     },
     "C13": {
         "corr": lambda tier, seed: corr_engine("C13", tier, seed, "restarts,batches,merges,bigvals", 160, 4000, ops=30,
